@@ -62,7 +62,11 @@ impl ConstraintVal {
                     false
                 }
             }
-            ConstraintValArm::Exact(expected) => val.equal(expected).unwrap_or(false),
+            // An arm that names another constraint admits what that constraint admits.
+            ConstraintValArm::Exact(expected) => match expected.as_ref() {
+                Val::Constraint(named) => named.check(val),
+                expected => val.equal(expected).unwrap_or(false),
+            },
         })
     }
 }
